@@ -1,7 +1,7 @@
 (* C18: property oracles that need more than Model/Units.v offers (decoded float64 values,
    arbitrary-precision evaluation of the CSPTP formulas).  Written from the property text;
    none of them calls the model of the code.  Executable, no proofs. *)
-From Coq Require Import ZArith Bool.
+From Coq Require Import ZArith Bool List.
 From Flocq Require Import IEEE754.BinarySingleNaN.
 From ST Require Import Base.Ints Base.F64.
 Open Scope Z_scope.
@@ -73,3 +73,40 @@ Definition C18_freq_of_ppm_ok (x : Z) (g : f64) : bool :=
       (Z.abs (N - Z.abs x * D) * 2^51 <=? Z.abs x * D)
   | _ => false
   end.
+
+(* ---- re-encoding a wire timestamp whose nanoseconds field is anything the 32 bits allow ----
+   the instant s + ns/10^9 is kept exactly; canonical fields come back unchanged; an instant beyond
+   the last 48-bit second cannot be written (the code panics) *)
+Definition C18_ts_reencode_ok (s ns okk bs bns : Z) : bool :=
+  if ns <? 1000000000 then (okk =? 1) && (bs =? s) && (bns =? ns)
+  else if s * 1000000000 + ns <? 2^48 * 1000000000 then
+    (okk =? 1) && (0 <=? bns) && (bns <? 1000000000) && (bs * 1000000000 + bns =? s * 1000000000 + ns)
+  else okk =? 0.
+
+(* ---- the CSPTP client against a server whose timestamps are theta ahead of the client clock ----
+   U = UTC correction the exchange announces (utcOffset x 10^9 if the valid flag is set, else 0),
+   d1max = upper bound of the request's one-way delay and D2 = the reply's one-way delay, both
+   measured by the harness on the client's clock (ns).  Property: the offset is theta up to the delay
+   asymmetry, S2C/C2S delays are the one-way delays shifted by -+theta and +-U, the mean path delay is
+   the mean of the two delays; correction fields do not appear: they cancel.  1 us of slack. *)
+Definition C18_client_ok (theta U d1max D2 off mpd c2s s2c : Z) : bool :=
+  (-2000 <=? 2 * (off - theta) + D2) && (2 * (off - theta) + D2 <=? d1max + 2000) &&
+  (s2c =? D2 - theta + U) &&
+  (-1000 <=? c2s - theta + U) && (c2s - theta + U <=? d1max + 1000) &&
+  (-2000 <=? 2 * mpd - D2) && (2 * mpd - D2 <=? d1max + 2000).
+
+(* ---- source check of the adjtimex call sites: entries (category, ok) ----
+   1 Timex.Time = TimevalFromNsec(<duration>.Nanoseconds()) with ADJ_SETOFFSET and ADJ_NANO in Modes
+   2 Timex.Freq = ScaledPPMFromFreq(..) with ADJ_FREQUENCY in Modes
+   3 Timex.Freq read only as the argument of FreqFromScaledPPM
+   4 Timex.Offset = <duration>.Nanoseconds() with ADJ_OFFSET, ADJ_NANO in Modes and STA_NANO in Status
+   5 the files that use unix.Timex / ClockAdjtime are exactly the known three *)
+Fixpoint count_cat (c : Z) (es : list (Z * Z)) : Z :=
+  match es with
+  | nil => 0
+  | cons (c', _) r => (if c' =? c then 1 else 0) + count_cat c r
+  end.
+Definition C18_callsites_ok (es : list (Z * Z)) : bool :=
+  List.forallb (fun e => snd e =? 1) es &&
+  (3 <=? count_cat 1 es) && (2 <=? count_cat 2 es) && (1 <=? count_cat 3 es) &&
+  (1 <=? count_cat 4 es) && (count_cat 5 es =? 1).
